@@ -45,7 +45,7 @@ def execute(ctx, binp, scns, test, module, kind):
         i = p.stdout.index("WARNING: DATA RACE")
         ctx.candidate(dict(kind="race", client=kind), "data race reported by the Go race detector:\n" + p.stdout[i:i + 3000], dict(kind="race", report=p.stdout[i:i + 3000]))
     elif p.returncode != 0:
-        raise vf.Machinery("harness failed rc=%d\n%s" % (p.returncode, p.stdout[-3000:]))
+        ctx.harness_died(p, test + " harness")
     traces = vf.read_ndjson(outp)
     if len(traces) != len(scns):
         raise vf.Machinery("harness produced %d traces for %d schedules" % (len(traces), len(scns)))
